@@ -6,6 +6,24 @@
 use crate::world::{Dir, Inner, Kind, Role, Violation};
 
 pub fn classify(g: &Inner, v: &mut Violation) {
+    if v.culprit == "flatten" && v.event >= 0 && v.context.is_empty() {
+        // K3: the violation happens inside an emission of one of flatten's two upstreams that was
+        // itself made from inside the stop (Terminate / Error sent up) of the other upstream
+        let mut p = v.event;
+        let mut emitter: i32 = -1;
+        while p >= 0 {
+            let pe = &g.events[p as usize];
+            if let Role::Puppet(id, _) = g.edges[pe.edge as usize].role {
+                if pe.dir == Dir::Down && matches!(pe.kind, Kind::Data | Kind::Terminate | Kind::Error) && emitter < 0 {
+                    emitter = id as i32;
+                } else if pe.dir == Dir::Up && matches!(pe.kind, Kind::Terminate | Kind::Error) && emitter >= 0 && emitter != id as i32 {
+                    v.context = "sibling-emits-inside-upstream-stop".into();
+                    break;
+                }
+            }
+            p = pe.parent;
+        }
+    }
     if v.culprit == "share" && (v.kind == "delivery-after-terminal" || v.kind == "delivery-after-disposal") {
         // K1: the violating delivery belongs to an upstream emission frame that began before the
         // sink received its terminal / disposed: an interrupted outer fan-out of share resuming
